@@ -1,3 +1,4 @@
+import SmtpV.Spec.AuthMon
 import SmtpV.Model.Server
 import SmtpV.Spec.Monitors
 /-!
@@ -247,7 +248,7 @@ def monitor (pid : String) (c0 a : List String) : String :=
        | "C03" => Spec.Mon.check3 cfg evs
        | "C04" => Spec.Mon.check4 cfg.lmtp drecs evs
        | "C08" => Spec.Mon.check8 evs
-       | "C09" => Spec.Mon.check9 cfg evs
+       | "C09" => Spec.Mon.check9 cfg evs ++ Spec.AuthMon.check input evs
        | "C10" => Spec.Mon.check10 cfg (tlsMode == "implicit") evs
        | "C12" =>
          Spec.Mon.check12 cfg evs ++
@@ -257,7 +258,7 @@ def monitor (pid : String) (c0 a : List String) : String :=
             let replies := (evs.filterMap fun e => match e with
               | .w bs => Spec.ReplySyntax.parse bs
               | _ => none).flatten.drop 1
-            ((lines.zip replies).map fun (l, r) => Spec.Mon.probeExpect cfg (tlsMode == "implicit") l r).flatten
+            ((lines.zip replies).map fun (l, r) => Spec.Mon.probeExpect cfg (tlsMode == "implicit") (SmtpV.Text.toUpper l) r).flatten
           else [])
        | "C19" => Spec.Mon.check19 cfg.maxLine (tag == "TAG=cmdonly" || tag == "TAG=cmdonly-sharedseg") input evs ++ Spec.Mon.check8 evs
        | "C13" => Spec.Mon.check13 cfg.lmtp cfg.lmtpSess be.data drecs evs
